@@ -62,6 +62,48 @@ CLAIMS.update({
             F_NOTE, '6/C17'),
 })
 
+P_NOTE = ('Theorems are about the Gallina model coq/theories/Producers.v (+ Time.v, Replace.v, Filters.v): trigger '
+          'expressions over an explicit time-zone table, a draw oracle for random.uniform and a sun oracle; bounded loops '
+          'are iter_until with the bound generated from /repo. They hold for every table / expression / reference instant. '
+          'Tied to /repo by querying the real producers in TZ=<zone> subprocesses (8 zones quick, 32 thorough; table of '
+          'each zone extracted from whenever itself on every run) and comparing answer by answer with the model evaluated '
+          'in Coq; an independent zoneinfo/PEP-495 reference decides the property on the implementation\'s own answers. '
+          'No axioms. Not verified: whenever, zoneinfo data, float rounding inside jitter (1 microsecond tolerance).')
+CLAIMS.update({
+    'C04': ('next_strictly_future: for EVERY producer expression (any nesting, filters, tables, draws, sun oracle, cache '
+            'contents) a computed next occurrence is strictly after the reference instant; chain_increasing', P_NOTE, '6/C04'),
+    'C05': ('interval: earliest admissible grid point, none skipped, none rejected returned (full); grid stability under the '
+            'cache (full). PARTIAL: time of day - earliest among the local days in walking order (the chronological order of '
+            'the walk under a well-formed table, and the group union, are decided by the correspondence + the independent '
+            'zoneinfo enumeration, not yet by a theorem)', P_NOTE, '6/C05'),
+    'C06': ('for every table: candidates = exactly the instants showing the wall-clock time; replace follows the 4x4 policy '
+            'table (unique / skipped: skip, earlier, later = shifted by the size of the gap, after = first valid whole '
+            'minute / repeated: skip, first, last, both). PARTIAL: once-per-day enumeration over consecutive days is decided '
+            'by chains across every generated transition against the PEP-495 reference', P_NOTE, '6/C06'),
+    'C13': ('offset_exact, earliest/latest clamp (= max/min with the policy-selected bound on the occurrence\'s local day), '
+            'jitter_window (assuming uniform answers within its bounds) - proved for all inner triggers', P_NOTE, '6/C13'),
+    'C14': ('consecutive firings of an offset chain (any sign) and of a jitter chain with non-negative lower bound belong to '
+            'strictly increasing underlying occurrences (proved). Negative-low jitter is the known finding F6 '
+            '(reported as KNOWN-FINDING; any other double firing is a violation)', P_NOTE, '6/C14'),
+    'C16': ('loop/call skeleton regenerated from /repo on every run equals the expected one (reflexivity): all loops bounded '
+            'except IntervalProducer\'s two while loops; exhausted bound = InfiniteLoopDetectedError; interval terminates '
+            'when an admissible grid point exists within the fuel; never-accepting filter refuted (F9, known finding). '
+            'PARTIAL: no closed-form work bound; wall-clock budget per call in the correspondence', P_NOTE, '6/C16'),
+    'C19': ('every row of the property for all tables / now / arguments: none=now, durations, identity rows, naive = system '
+            'local, time of day = today-or-tomorrow and (under wf_tz + dates-forward) the LEAST instant >= now showing it, '
+            'positivity, past tolerance tied to the generated constant. The refusal of a time that is skipped/repeated today '
+            'is the known finding F15',
+            'Model coq/theories/GetInstant.v over Time.v tables; string/float parsing is whenever\'s and outside the model. '
+            'Tied to /repo through get_instant, JobBuilder.once/countdown and TriggerBuilder.interval/offset/jitter under a '
+            'patched clock in 10 zones, compared in Coq, plus a zoneinfo oracle. No axioms.', '6/C19'),
+    'C20': ('accept_sound_by_sweep: accepted-without-policy => shown exactly once on every day of the year, for every table '
+            'passing wf_dst, lifted from an executable interval sweep that is evaluated by vm_compute on the tables of the '
+            'run (16 zones x 2020-2037 quick; 599 zones thorough); both_given_verbatim; state machine of the cached setup',
+            'Model coq/theories/Dst.v (_iter_date, find_time, _setup, check_dst_handling) over Time.v tables; correspondence '
+            'per (zone, year) in fresh interpreters + zoneinfo scan of every day. The sweep lemmas are generated into scratch '
+            'per run (finite domain swept completely and lifted by sweep_lift). No axioms.', '6/C20'),
+})
+
 checks = []
 na = []
 for p in props:
